@@ -28,6 +28,7 @@ CONSTANTS N,              \* number of tasks
           W,              \* number of workers
           AtomicPublish,  \* BOOLEAN
           Configs,        \* set of configurations [kind, outc, init, order]
+          Calls,          \* number of consecutive schedule() calls on the same scheduler object (1 or 2)
           None            \* model value
 
 Tasks   == 1 .. N
@@ -36,7 +37,7 @@ STOP    == 0
 M       == -1             \* owner id of the master for the condition variable
 
 Kinds    == {"none", "hard", "soft"}
-Outcomes == {"ok", "fail", "raise", "none", "notpair", "badstatus", "badupdate"}
+Outcomes == {"ok", "fail", "raise", "none", "notpair", "badstatus", "badupdate", "nonfinal"}
 Inits    == {"ABSENT", "DONE", "FAILED", "SKIPPED"}
 Final    == {"DONE", "FAILED", "SKIPPED"}
 AllPairs == {p \in Tasks \X Tasks : p[1] # p[2]}
@@ -61,14 +62,14 @@ VARIABLES
    kind, outc, order,                  \* configuration (constant during a behaviour)
    st, pay, clk,                       \* environment: status / payload version / clocks per task
    queue, unfinished,                  \* work queue
-   mpc, left, idx, newleft, nbefore, k, raised,     \* master
+   mpc, left, idx, newleft, nbefore, k, raised, call,     \* master
    wpc, cur,                           \* workers
    cvOwner, cvWaiting, cvNotified,     \* condition variable
    seen, execs                         \* history: what a task saw when it started; execution counters
 
 cfgvars == <<kind, outc, order>>
 envvars == <<st, pay, clk>>
-mvars   == <<mpc, left, idx, newleft, nbefore, k, raised>>
+mvars   == <<mpc, left, idx, newleft, nbefore, k, raised, call>>
 wvars   == <<wpc, cur>>
 cvvars  == <<cvOwner, cvWaiting, cvNotified>>
 hvars   == <<seen, execs>>
@@ -86,7 +87,11 @@ Cyclic == \E a, b \in Tasks : a # b /\ (Edge(a, b) \/ ReachIn(a, b, N)) /\ (Edge
 
 (* clocks are abstracted to the epoch they were taken in: None, "init" (carried
    in by the initial environment: task i older than task j iff i < j) or "run" *)
-EndLeqStart(d, t) == /\ clk[d] = "init" /\ clk[t] = "init" /\ d < t
+(* within one object's life a task executes at most once and only after its dependencies were published, so a
+   dependency executed in this run ended before a dependent executed in this run started *)
+EndLeqStart(d, t) == \/ (clk[d] = "init" /\ clk[t] = "init" /\ d < t)
+                     \/ (clk[d] = "init" /\ clk[t] = "run")
+                     \/ (clk[d] = "run" /\ clk[t] = "run")
 
 Init ==
    /\ \E c \in Configs : kind = c.kind /\ outc = c.outc /\ order = c.order
@@ -94,7 +99,7 @@ Init ==
                          /\ pay = [t \in Tasks |-> IF c.init[t] = "DONE" THEN 1 ELSE 0]
                          /\ clk = [t \in Tasks |-> IF c.init[t] = "DONE" THEN "init" ELSE "none"]
    /\ queue = <<>> /\ unfinished = 0
-   /\ mpc = "start" /\ left = <<>> /\ idx = 0 /\ newleft = <<>> /\ nbefore = 0 /\ k = 0 /\ raised = FALSE
+   /\ mpc = "start" /\ left = <<>> /\ idx = 0 /\ newleft = <<>> /\ nbefore = 0 /\ k = 0 /\ raised = FALSE /\ call = 1
    /\ wpc = [w \in Workers |-> "none"] /\ cur = [w \in Workers |-> 0]
    /\ cvOwner = 0 /\ cvWaiting = FALSE /\ cvNotified = FALSE
    /\ seen = [t \in Tasks |-> <<>>] /\ execs = [t \in Tasks |-> 0]
@@ -109,12 +114,12 @@ MStart ==
    /\ wpc' = [w \in Workers |-> "start"]
    /\ IF Cyclic THEN /\ raised' = TRUE /\ mpc' = "stop" /\ k' = 1 /\ left' = left
                 ELSE /\ raised' = raised /\ mpc' = "acqcv" /\ k' = k /\ left' = order
-   /\ UNCHANGED <<cfgvars, envvars, queue, unfinished, idx, newleft, nbefore, cur, cvvars, hvars>>
+   /\ UNCHANGED <<cfgvars, envvars, queue, unfinished, idx, newleft, nbefore, call, cur, cvvars, hvars>>
 
 MAcqCv ==
    /\ mpc = "acqcv" /\ cvOwner = 0
    /\ cvOwner' = M /\ mpc' = "decide" /\ idx' = 1 /\ newleft' = <<>> /\ nbefore' = Len(left)
-   /\ UNCHANGED <<cfgvars, envvars, queue, unfinished, left, k, raised, wvars, cvWaiting, cvNotified, hvars>>
+   /\ UNCHANGED <<cfgvars, envvars, queue, unfinished, left, k, raised, call, wvars, cvWaiting, cvNotified, hvars>>
 
 Blocking(d) == st[d] \in {"ABSENT", "PENDING", "WAITING"}
 BadHard(t)  == \E d \in Hard(t) : st[d] \in {"FAILED", "SKIPPED"}
@@ -152,36 +157,47 @@ MDecide ==
                             /\ UNCHANGED <<k, raised>>
         [] d = "ASSERT"  -> /\ st' = st /\ raised' = TRUE /\ mpc' = "stop" /\ k' = 1 /\ cvOwner' = 0
                             /\ UNCHANGED <<left, idx, newleft, cvWaiting>>
-   /\ UNCHANGED <<cfgvars, pay, clk, queue, unfinished, nbefore, wvars, cvNotified, hvars>>
+   /\ UNCHANGED <<cfgvars, pay, clk, queue, unfinished, nbefore, call, wvars, cvNotified, hvars>>
 
 MPut ==
    /\ mpc = "put"
    /\ queue' = Append(queue, left[idx]) /\ unfinished' = unfinished + 1
    /\ Advance(newleft)
-   /\ UNCHANGED <<cfgvars, envvars, nbefore, k, raised, wvars, cvNotified, hvars>>
+   /\ UNCHANGED <<cfgvars, envvars, nbefore, k, raised, call, wvars, cvNotified, hvars>>
 
 (* cond_var.wait() returns: re-take the lock, leave the with block *)
 MWake ==
    /\ mpc = "wait" /\ cvNotified /\ cvOwner = 0
    /\ cvNotified' = FALSE /\ mpc' = "acqcv"
-   /\ UNCHANGED <<cfgvars, envvars, queue, unfinished, left, idx, newleft, nbefore, k, raised, wvars, cvOwner, cvWaiting, hvars>>
+   /\ UNCHANGED <<cfgvars, envvars, queue, unfinished, left, idx, newleft, nbefore, k, raised, call, wvars, cvOwner, cvWaiting, hvars>>
 
 MQJoin ==
    /\ mpc = "qjoin" /\ unfinished = 0
    /\ mpc' = "stop" /\ k' = 1
-   /\ UNCHANGED <<cfgvars, envvars, queue, unfinished, left, idx, newleft, nbefore, raised, wvars, cvvars, hvars>>
+   /\ UNCHANGED <<cfgvars, envvars, queue, unfinished, left, idx, newleft, nbefore, raised, call, wvars, cvvars, hvars>>
 
 MStop ==
    /\ mpc = "stop"
    /\ queue' = Append(queue, STOP) /\ unfinished' = unfinished + 1
    /\ IF k < W THEN k' = k + 1 /\ mpc' = mpc ELSE k' = 1 /\ mpc' = "join"
-   /\ UNCHANGED <<cfgvars, envvars, left, idx, newleft, nbefore, raised, wvars, cvvars, hvars>>
+   /\ UNCHANGED <<cfgvars, envvars, left, idx, newleft, nbefore, raised, call, wvars, cvvars, hvars>>
 
+(* join the workers one after the other.  When the last one is joined the call comes back; if the same
+   scheduler object is used for another schedule() call (Calls = 2) the master goes on, in the same step, with
+   the beginning of execute_tasks of that call: new condition variable, new workers, sort (acyclic: the first call
+   would have raised otherwise), the environment and the work queue object being those of the first call *)
 MJoin ==
    /\ mpc = "join" /\ wpc[k] = "exited"
-   /\ IF k < W THEN k' = k + 1 /\ mpc' = mpc
-               ELSE k' = 0 /\ mpc' = IF raised THEN "raised" ELSE "returned"
-   /\ UNCHANGED <<cfgvars, envvars, queue, unfinished, left, idx, newleft, nbefore, raised, wvars, cvvars, hvars>>
+   /\ IF k < W
+      THEN /\ k' = k + 1 /\ mpc' = mpc
+           /\ UNCHANGED <<left, call, wvars, cvvars>>
+      ELSE IF call < Calls /\ ~raised
+      THEN /\ call' = call + 1 /\ k' = 0 /\ mpc' = "acqcv" /\ left' = order
+           /\ wpc' = [w \in Workers |-> "start"] /\ cur' = [w \in Workers |-> 0]
+           /\ cvOwner' = 0 /\ cvWaiting' = FALSE /\ cvNotified' = FALSE
+      ELSE /\ k' = 0 /\ mpc' = IF raised THEN "raised" ELSE "returned"
+           /\ UNCHANGED <<left, call, wvars, cvvars>>
+   /\ UNCHANGED <<cfgvars, envvars, queue, unfinished, idx, newleft, nbefore, raised, hvars>>
 
 -----------------------------------------------------------------------------
 (* workers *)
@@ -193,7 +209,7 @@ WStart(w) ==
 WGet(w) ==
    /\ wpc[w] = "get" /\ queue # <<>>
    /\ queue' = Tail(queue)
-   /\ IF Head(queue) = STOP THEN wpc' = [wpc EXCEPT ![w] = "exited"] /\ cur' = cur
+   /\ IF Head(queue) = STOP THEN wpc' = [wpc EXCEPT ![w] = "stopdone"] /\ cur' = cur
       ELSE wpc' = [wpc EXCEPT ![w] = "dostart"] /\ cur' = [cur EXCEPT ![w] = Head(queue)]
    /\ UNCHANGED <<cfgvars, envvars, unfinished, mvars, cvvars, hvars>>
 
@@ -244,6 +260,13 @@ WTaskDone(w) ==
    /\ wpc' = [wpc EXCEPT ![w] = "notify"]
    /\ UNCHANGED <<cfgvars, envvars, queue, mvars, cur, cvvars, hvars>>
 
+(* the sentinel is acknowledged too, so that the queue can be joined again by a later call *)
+WStopDone(w) ==
+   /\ wpc[w] = "stopdone"
+   /\ unfinished' = unfinished - 1
+   /\ wpc' = [wpc EXCEPT ![w] = "exited"]
+   /\ UNCHANGED <<cfgvars, envvars, queue, mvars, cur, cvvars, hvars>>
+
 (* with cond_var: notify_all() *)
 WNotify(w) ==
    /\ wpc[w] = "notify" /\ cvOwner = 0
@@ -257,7 +280,7 @@ Done == Terminated /\ (\A w \in Workers : wpc[w] = "exited") /\ UNCHANGED vars
 
 MasterNext == MStart \/ MAcqCv \/ MDecide \/ MPut \/ MWake \/ MQJoin \/ MStop \/ MJoin
 WorkerNext(w) == WStart(w) \/ WGet(w) \/ WDoStart(w) \/ WPublish(w) \/ WPubStatus(w) \/ WPubApply(w)
-                 \/ WPubClock(w) \/ WTaskDone(w) \/ WNotify(w)
+                 \/ WPubClock(w) \/ WTaskDone(w) \/ WStopDone(w) \/ WNotify(w)
 Next == MasterNext \/ (\E w \in Workers : WorkerNext(w)) \/ Done
 
 Spec     == Init /\ [][Next]_vars
@@ -296,6 +319,8 @@ C02_FromEmptyNeverRaises == mpc # "raised"
 
 (* C03 *)
 C03_Clean == Terminated => queue = <<>> /\ \A w \in Workers : wpc[w] = "exited"
+(* model-level: every item put on the queue was acknowledged, so that the queue can be joined again *)
+M_QueueJoinable == Terminated => unfinished = 0
 C03_Terminates == <>Terminated
 TypeOK == /\ unfinished >= 0 /\ cvOwner \in {0, M} \cup Workers
           /\ Len(queue) <= N + W
@@ -307,5 +332,6 @@ W_Skipped         == ~(\E t \in Tasks : st[t] = "SKIPPED")
 W_Raised          == mpc # "raised"
 W_TwoRunning      == ~(\E t1, t2 \in Tasks : t1 # t2 /\ Running(t1) /\ Running(t2))
 W_DecideDuringPub == ~(mpc = "decide" /\ \E w \in Workers : wpc[w] = "publish" /\ cur[w] \in Deps(left[idx]))
+W_SecondCall      == call = 1
 W_Dropped         == ~(mpc = "returned" /\ \E t \in Tasks : execs[t] = 0 /\ st[t] = "DONE")
 =============================================================================
